@@ -1256,7 +1256,10 @@ fn check_env_case(c: &EnvCase) -> Result<Option<String>, String> {
     let root = tempfile::Builder::new().prefix("ve.").tempdir_in(scratch_root()).map_err(|e| e.to_string())?;
     let canon = |p: &Path| std::fs::canonicalize(p).unwrap_or_else(|_| p.to_path_buf());
     let base = canon(root.path());
-    let tmp = base.join("tmp");
+    // (a third of the cases: characters in the name of the temporary directory that bash
+    // would expand or end a quotation with - finding U)
+    let hostile = (c.n_docs + c.n_tests) % 3 == 0;
+    let tmp = base.join(if hostile { "t$HOME mp\"q`id`" } else { "tmp" });
     let probes = base.join("probes");
     let work = base.join("work");
     for d in [&tmp, &probes, &work] {
@@ -1412,6 +1415,13 @@ fn check_env_case(c: &EnvCase) -> Result<Option<String>, String> {
         v.sort();
         v
     };
+    // nothing appears next to the directories of this case either (a path that got expanded)
+    let mut beside = left(&base);
+    let tmp_name = tmp.file_name().map(|n| n.to_string_lossy().to_string()).unwrap_or_default();
+    beside.retain(|e| e != &tmp_name && e != "probes" && e != "work" && e != "docs");
+    if !beside.is_empty() {
+        wrong.push(format!("after exit there is something new next to the temporary directory: {:?}", beside));
+    }
     match c.dirmode.as_str() {
         "tmp" => {
             if !left(&tmp).is_empty() {
